@@ -319,9 +319,14 @@ def _cap_loop(ctx: Ctx, f, l: Event, cap_attr: str, label: str, outer: Optional[
             ctx.check(stop, f, l.node, f"{label}: consultation stops when the cap is reached", f"break iff {counter} >= session.{cap_attr}", bp.describe()[:120])
     # source: a uniformly random permutation of the population
     it = strip_ver(l.iter) if l.iter is not None else NONE
+    while it[0] == "call" and it[1][0] == "name" and it[1][1] in ("iter", "list", "tuple") and len(it[2]) == 1 and not it[3]:
+        it = strip_ver(it[2][0])  # iter(x) / list(x) walked once by the loop is x
     # (which generator provides the permutation is C07's concern, not this property's)
     ok = _rand_call(it, "sample") and len(it[2]) == 2 and it[2][1] == ("call", ("name", "len"), (it[2][0],), (), None)
     pop = key(it[2][0]) if ok else "?"
+    if not ok and it[0] not in ("attr", "sym", "name"):
+        ctx.unrec(f, l.node, f"{label}: agents are visited in a uniformly random permutation of the whole population", "the order of consultation is produced in a form that is not modelled", short(it))
+        return
     ctx.check(ok, f, l.node, f"{label}: agents are visited in a uniformly random permutation of the whole population", "<generator>.sample(agents, len(agents))", short(it))
     want_pop = "self.simulator.normal_frequency_agents" if cap_attr == "max_normal_orders" else "self.simulator.high_frequency_agents"
     ctx.check(pop == want_pop, f, l.node, f"{label}: population", want_pop, pop)
